@@ -27,6 +27,23 @@ partial def decGo (j : Json) : GoVal :=
     .struct ((jarr j "fields").map fun f =>
       let v := decGo (jget f "v")
       (jstr f "name", true, if jbool f "iface" then GoVal.iface (match v with | .nil => none | v => some v) else v)) []
+  | "verrpage" =>
+    -- the harness's `FormPage`: a FormError by value, by pointer, a nil *FormError, and an int
+    let f := jstr j "field"
+    let m := jstr j "message"
+    let c : Rat := match jget j "code" with | .num x => (x.mantissa : Rat) / ((10 ^ x.exponent : Nat) : Rat) | _ => 0
+    let v : GoVal := .struct [("Field", true, .str f), ("Message", true, .str m), ("Code", true, .num c)]
+      [("Error", .str (f ++ ": " ++ m)), ("Label", .str ("label-" ++ f))]
+    .struct [("Form", true, v), ("Ptr", true, .ptr (some v)), ("Last", true, .ptr none), ("N", true, .num 1)] []
+  | "verr" =>
+    -- the harness's compiled type `FormError` (three fields; value-receiver methods Error/Label), by value, by pointer, or a nil pointer
+    if jbool j "nil" then .ptr none else
+    let f := jstr j "field"
+    let m := jstr j "message"
+    let c : Rat := match jget j "code" with | .num x => (x.mantissa : Rat) / ((10 ^ x.exponent : Nat) : Rat) | _ => 0
+    let v : GoVal := .struct [("Field", true, .str f), ("Message", true, .str m), ("Code", true, .num c)]
+      [("Error", .str (f ++ ": " ++ m)), ("Label", .str ("label-" ++ f))]
+    if jbool j "ptr" then .ptr (some v) else v
   | "twin" =>
     -- the harness's two function-local types called Product
     let t := jstr j "title"
